@@ -126,6 +126,11 @@ def fixed_corpus(u):
     add('nocopy', Struct('NoCopyDef', [Field(1, ('string',), 'optional', nocopy=True), Field(2, ('binary',), 'optional', nocopy=True),
                                        Field(3, ('i32',), 'optional')],
                          init={'F1': ('b', b'dflt-s'), 'F2': ('b', b'dflt-b'), 'F3': ('s', 4)}))
+    # the option after an empty type descriptor ("id,req,,nocopy") counts as well
+    add('nocopy', Struct('NoCopyTypeless', [Field(1, ('string',), nocopy=True, tag='frugal:"1,default,,nocopy"'),
+                                            Field(2, ('binary',), 'optional', nocopy=True, tag='frugal:"2,optional,,nocopy"'),
+                                            Field(3, ('ptr', ('string',)), 'optional', nocopy=True, tag='frugal:"3,optional,,nocopy"'),
+                                            Field(4, ('string',), tag='frugal:"4,default,"')]))
     add('nocopy', Struct('NoCopyDefNest', [Field(1, ('struct', 'NoCopyDef')), Field(2, ('ptr', ('struct', 'NoCopyDef')), 'optional')]))
     return groups
 
@@ -259,6 +264,12 @@ def invalid_defs(u, add):
                        ('Leaf', '(struct %d Leaf)' % u.by_name['Leaf'].sid, 'pkg Leaf'), ('[]int32', '(slice int32)', '<i32>')]:
         one(gt, mt, 'frugal:"1,default,%s"' % an)
     one('map[string]int32', '(map string int32)', 'frugal:"1,default,map<string,i32>"')
+    # a package-qualified name on a type that has no name
+    one('[]byte', '(slice uint8)', 'frugal:"1,default,base.Text"')
+    one('map[string]int32', '(map string int32)', 'frugal:"1,default,base.Dict<string:i32>"')
+    one('[][]byte', '(slice (slice uint8))', 'frugal:"1,default,list<base.Item>"')
+    one('[]int32', '(slice int32)', 'frugal:"1,default,pkg.list<i32>"')
+    one('int32', 'int32', 'frugal:"1,default,pkg.i32"')
     lsid = u.by_name['Leaf'].sid
     # invalid map keys; non-struct pointers where only values are allowed
     one('map[Leaf]int32', '(map (struct %d Leaf) int32)' % lsid, 'frugal:"1,default,map<Leaf:i32>"')
